@@ -241,27 +241,34 @@ def execute_stream(stream, cases, workers):
     return run
 
 
-def shrink_failure(stream, case, kind, budget=200):
-    """Greedy shrinking: keep a smaller variant while it still fails with the same kind."""
+def shrink_failure(stream, case, kind, budget=200, time_budget=45.0):
+    """Greedy shrinking: keep a smaller variant while it still fails with the same kind.
+    Bounded in steps and in wall time (a change that makes the code hang must not stall the report)."""
     cur = case
     steps = 0
     improved = True
-    while improved and steps < budget:
-        improved = False
-        for cand in stream.shrink(cur):
-            steps += 1
-            if steps >= budget:
-                break
-            r = _impl_worker((stream, cand))
-            out = r[1] if r[0] == 'ok' else ImplError(error=r[1], msg=r[2])
-            try:
-                fs = stream.holds(cand, out) or []
-            except Exception:
-                fs = []
-            if any(f.kind == kind for f in fs):
-                cur = cand
-                improved = True
-                break
+    t0 = time.time()
+    saved = getattr(stream, 'timeout_s', 120)
+    try:
+        stream.timeout_s = min(saved, 15)
+        while improved and steps < budget and time.time() - t0 < time_budget:
+            improved = False
+            for cand in stream.shrink(cur):
+                steps += 1
+                if steps >= budget or time.time() - t0 >= time_budget:
+                    break
+                r = _impl_worker((stream, cand))
+                out = r[1] if r[0] == 'ok' else ImplError(error=r[1], msg=r[2])
+                try:
+                    fs = stream.holds(cand, out) or []
+                except Exception:
+                    fs = []
+                if any(f.kind == kind and getattr(f, 'literal', True) for f in fs):
+                    cur = cand
+                    improved = True
+                    break
+    finally:
+        stream.timeout_s = saved
     return cur
 
 
@@ -333,8 +340,8 @@ def run_check(prop, tier, seed, replay=None, workers=None):
                 unknown.setdefault((r.stream.name, f.kind), (r.stream, c, f))
     for key, (e, s, c, f) in known_hit.items():
         lines_out.append('KNOWN-FINDING: property=%s %s [%s]' % (pid, e.get('description', f.kind), key))
-    for (sname, kind), (s, c, f) in unknown.items():
-        small = shrink_failure(s, c, kind)
+    for n_rep, ((sname, kind), (s, c, f)) in enumerate(unknown.items()):
+        small = shrink_failure(s, c, kind) if n_rep < 6 else c
         r = _impl_worker((s, small))
         out = r[1] if r[0] == 'ok' else ImplError(error=r[1], msg=r[2])
         fs = [x for x in (s.holds(small, out) or []) if x.kind == kind] or [f]
